@@ -1,4 +1,5 @@
 import KeepVerif.DriverLib
+import KeepVerif.Model.C35
 /-!
 # C35 / C36: the signing retry loop around the done check (`loop` op of harness/c35/looprun)
 
@@ -85,6 +86,59 @@ def holds (cs : Consts) (c : Case) (ls : List Listen) (r : Result) : Bool :=
         l.included.any (fun i => (conf i).contains e) &&
         sortNats act == sortNats a.ready &&
         sortNats inact == (List.range' 1 c.n).filter (fun m => !a.ready.contains m)
+
+/-! ## Model of the loop's use of the done check
+
+Member selection (`performMembersSelection`, pseudo-random, property C10) is a PARAMETER:
+`sel k ready` = the members included in attempt `k` given the ready list.  Per attempt:
+announcement (scripted ready list; fewer than `t` ready → next attempt, no `listen`) →
+`listen(sel k ready, k, protocol timeout of attempt k)` which starts from an empty set of
+confirmations (fixes 81ec0fd / 750971a: nothing of another attempt's listener survives) →
+the scripted done messages arrive → if this member is included: `signingAttemptFn` fails (next
+attempt, `waitUntilAllDone` not reached) or succeeds and `signalDone` delivers the own done message →
+`waitUntilAllDone` = `C35.check` on the recorded confirmations: success ends the loop with the
+report, mismatch / incomplete (timeout) → next attempt.  After the scripted attempts: `err`. -/
+
+abbrev Selection := Nat → List Nat → List Nat
+
+/-- the message being signed (any constant; the harness uses 4242) -/
+def msgConst : Nat := 4242
+
+def wallet (c : Case) : List Nat := List.range' 1 c.n
+
+def attemptParams (cs : Consts) (c : Case) (sel : Selection) (k : Nat) (a : Attempt) : C35.Params :=
+  ⟨wallet c, sel k a.ready, msgConst, k, protoTimeout cs c k⟩
+
+def otherMsg (o : Other) : C35.Msg := ⟨o.sender, o.sender, msgConst, o.attempt, o.sig, o.endBlock⟩
+
+/-- done messages the listener of attempt `k` sees, in order; `none` = this member is included and
+    its signing attempt failed (`waitUntilAllDone` is not reached) -/
+def attemptMsgs (c : Case) (k : Nat) (a : Attempt) (included : List Nat) : Option (List C35.Msg) :=
+  let others := a.others.map otherMsg
+  if included.contains c.self then
+    match a.own with
+    | none => none
+    | some (e, s) => some (others ++ [⟨c.self, c.self, msgConst, k, s, e⟩])
+  else some others
+
+def unready (c : Case) (ready : List Nat) : List Nat :=
+  (wallet c).filter (fun m => !ready.contains m)
+
+def runFrom (cs : Consts) (c : Case) (sel : Selection) : Nat → List Attempt → List Listen × Result
+  | _, [] => ([], .err)
+  | k, a :: rest =>
+    if a.ready.length < c.t then runFrom cs c sel (k + 1) rest
+    else
+      let l : Listen := ⟨k, sel k a.ready, protoTimeout cs c k⟩
+      match attemptMsgs c k a (sel k a.ready) with
+      | none => let r := runFrom cs c sel (k + 1) rest; (l :: r.1, r.2)
+      | some msgs =>
+        match (C35.scenario .fixed (attemptParams cs c sel k a) msgs []).1 with
+        | .success sig eb => ([l], .ok sig eb (protoTimeout cs c k) a.ready (unready c a.ready))
+        | _ => let r := runFrom cs c sel (k + 1) rest; (l :: r.1, r.2)
+
+def run (cs : Consts) (c : Case) (sel : Selection) : List Listen × Result :=
+  runFrom cs c sel 1 c.attempts
 
 /-! ## parsing of the op / observation lines -/
 
